@@ -433,6 +433,12 @@ func (w *World) applyTx(ts *TxStep) error {
 	if strings.Contains(ts.Note, "[hostile]") {
 		w.Label("c17 hostile tx delivered")
 	}
+	if obs.Res.Codespace == "sdk" && obs.Res.Code == 11 {
+		w.Label("tx out of gas")
+		if obs.AntePassed {
+			w.Label("tx out of gas after the ante handler")
+		}
+	}
 	if simnet.IsPanic(obs.Res.Codespace, obs.Res.Code) {
 		w.Label("tx recovered panic")
 		if w.On("C17") {
